@@ -43,20 +43,23 @@ def drive(name, histories, ops, mode="mixed", files=8):
 CORE3, CORE4 = mc("MC_Core_d3"), mc("MC_Core_d4")
 SEED2, FAIL2, SIZES2, IDX1 = mc("MC_Seeded_d2"), mc("MC_Fail_d2"), mc("MC_Sizes_d2"), mc("MC_Idx_d1")
 
+def dq(mode): return drive("q-" + mode, 10, 120, mode, 8)      # ~10 k records
+def dt(mode): return drive("t-" + mode, 40, 250, mode, 16)     # ~160 k records
+
 PROFILES = {
-    "C01": {"quick": [CORE4, SEED2], "thorough": [CORE4, SEED2]},
-    "C02": {"quick": [CORE3, SEED2], "thorough": [CORE4, SEED2]},
-    "C03": {"quick": [CORE3, SEED2, FAIL2], "thorough": [CORE4, SEED2, FAIL2, SIZES2]},
-    "C05": {"quick": [FAIL2], "thorough": [FAIL2]},
-    "C06": {"quick": [SIZES2], "thorough": [SIZES2]},
-    "C07": {"quick": [IDX1, CORE3], "thorough": [IDX1, CORE4]},
-    "C08": {"quick": [SEED2], "thorough": [SEED2, CORE4]},
-    "C09": {"quick": [SEED2, CORE3], "thorough": [SEED2, CORE4]},
-    "C10": {"quick": [SEED2], "thorough": [SEED2, CORE4]},
-    "C11": {"quick": [SEED2, CORE3], "thorough": [SEED2, CORE4]},
-    "C12": {"quick": [SEED2, CORE3], "thorough": [SEED2, CORE4]},
-    "C13": {"quick": [SEED2, CORE3], "thorough": [SEED2, CORE4]},
-    "C18": {"quick": [SEED2], "thorough": [SEED2]},
+    "C01": {"quick": [CORE4, SEED2, dq("mixed")], "thorough": [CORE4, SEED2, dt("mixed"), dt("all")]},
+    "C02": {"quick": [CORE3, SEED2, dq("mixed")], "thorough": [CORE4, SEED2, dt("mixed")]},
+    "C03": {"quick": [CORE3, SEED2, FAIL2, dq("all")], "thorough": [CORE4, SEED2, FAIL2, SIZES2, dt("all")]},
+    "C05": {"quick": [FAIL2, dq("fail")], "thorough": [FAIL2, dt("fail")]},
+    "C06": {"quick": [SIZES2, dq("sizes")], "thorough": [SIZES2, dt("sizes")]},
+    "C07": {"quick": [IDX1, CORE3, dq("mixed")], "thorough": [IDX1, CORE4, dt("mixed")]},
+    "C08": {"quick": [SEED2, dq("mixed")], "thorough": [SEED2, CORE4, dt("mixed")]},
+    "C09": {"quick": [SEED2, CORE3, dq("mixed")], "thorough": [SEED2, CORE4, dt("mixed")]},
+    "C10": {"quick": [SEED2, dq("mixed")], "thorough": [SEED2, CORE4, dt("mixed")]},
+    "C11": {"quick": [SEED2, CORE3, dq("mixed")], "thorough": [SEED2, CORE4, dt("mixed")]},
+    "C12": {"quick": [SEED2, CORE3, dq("mixed")], "thorough": [SEED2, CORE4, dt("mixed")]},
+    "C13": {"quick": [SEED2, CORE3, dq("mixed")], "thorough": [SEED2, CORE4, dt("mixed")]},
+    "C18": {"quick": [SEED2, dq("callbacks")], "thorough": [SEED2, dt("callbacks")]},
 }
 
 _SEQ_NOTE = ("Trusted: TLC, the Rust harness (shadow heap, observation code), the add-only hooks. Bounded: pool of 2-3 handles, depth and "
